@@ -20,6 +20,7 @@ SRC_GLOBS = ["src/containers/*.c", "src/utilities/*.c", "src/internal/*.c", "src
              "src/extensions/qconfig.c", "src/extensions/qaconf.c", "src/extensions/qlog.c",
              "src/ipc/*.c"]
 SAN_FLAGS = ["-fsanitize=address,undefined", "-fno-sanitize-recover=all", "-fno-omit-frame-pointer"]
+IMPL_VERSION = "2"   # bump when the layout of build/impl-* changes
 BASE_FLAGS = ["-std=gnu99", "-O1", "-g", "-D" + GUARD, "-D_GNU_SOURCE", "-w"]
 
 
@@ -80,7 +81,7 @@ def build_impl(variant="asan"):
         cc, flags = "gcc", BASE_FLAGS
     else:
         raise ValueError(variant)
-    key = tree_hash(variant + " ".join(flags))
+    key = tree_hash(variant + " ".join(flags) + IMPL_VERSION)
     d = os.path.join(BUILD, "impl-%s-%s" % (variant, key))
     with Lock("impl-" + variant):
         if os.path.exists(os.path.join(d, "libq.a")):
@@ -106,6 +107,13 @@ def build_impl(variant="asan"):
         r = sh(["ar", "rcs", os.path.join(tmp, "libq.a")] + [o for _, o, _, _ in res])
         if r.returncode != 0:
             raise BuildError(r.stderr)
+        # libqw.a: the same objects with the allocator symbols renamed (harness/allocwrap.h)
+        ren = []
+        for sym in ("malloc", "calloc", "realloc", "strdup", "free"):
+            ren += ["--redefine-sym", "%s=vf_%s" % (sym, sym)]
+        r = sh(["objcopy"] + ren + [os.path.join(tmp, "libq.a"), os.path.join(tmp, "libqw.a")])
+        if r.returncode != 0:
+            raise BuildError(r.stderr)
         os.rename(tmp, d)
     return d
 
@@ -114,12 +122,12 @@ class BuildError(Exception):
     pass
 
 
-def build_harness(name, impl_dir, variant="asan", wraps=(), extra=()):
+def build_harness(name, impl_dir, variant="asan", wraps=(), extra=(), lib="libq.a"):
     src = os.path.join(ROOT, "harness", name + ".c")
     h = hashlib.sha256(open(src, "rb").read())
     for f in sorted(glob.glob(os.path.join(ROOT, "harness", "*.h"))):
         h.update(open(f, "rb").read())
-    h.update(" ".join(wraps).encode() + " ".join(extra).encode())
+    h.update(" ".join(wraps).encode() + " ".join(extra).encode() + lib.encode())
     out = os.path.join(impl_dir, "%s-%s" % (name, h.hexdigest()[:10]))
     with Lock("harness-" + name):
         if os.path.exists(out):
@@ -131,7 +139,7 @@ def build_harness(name, impl_dir, variant="asan", wraps=(), extra=()):
         else:
             cc, flags = "gcc", BASE_FLAGS
         wrapflags = ["-Wl,--wrap=" + w for w in wraps]
-        r = sh([cc] + flags + include_flags() + list(extra) + [src, os.path.join(impl_dir, "libq.a"),
+        r = sh([cc] + flags + include_flags() + list(extra) + [src, os.path.join(impl_dir, lib),
                                                               "-lpthread", "-o", out + ".tmp"] + wrapflags)
         if r.returncode != 0:
             raise BuildError("harness %s does not build:\n%s" % (name, r.stderr[:4000]))
@@ -264,7 +272,7 @@ def leanchecker(mod):
 def run_proc(cmd, text, timeout=600, env=None):
     e = dict(os.environ)
     e["ASAN_OPTIONS"] = "detect_leaks=1:abort_on_error=0:exitcode=99:allocator_may_return_null=1"
-    e["UBSAN_OPTIONS"] = "print_stacktrace=1:halt_on_error=1:exitcode=98"
+    e["UBSAN_OPTIONS"] = "print_stacktrace=1:halt_on_error=1:abort_on_error=1:exitcode=98"
     e["LSAN_OPTIONS"] = "exitcode=97"
     if env:
         e.update(env)
@@ -338,6 +346,7 @@ class Check:
     module = None          # driver module name, e.g. "encode"
     harness = None         # harness source name
     wraps = ()
+    lib = "libq.a"         # "libqw.a": allocator calls of the library go through harness/allocwrap.h
     lean_targets = ()      # extra lake targets besides Props.<prop>
     trusted_base = ["Lean 4.33 kernel", "axioms propext / Classical.choice / Quot.sound only",
                     "hand-written model tied by the correspondence harness (differential, sampled)"]
@@ -432,7 +441,7 @@ class Check:
         impl_dir = None
         try:
             impl_dir = build_impl("asan")
-            self.hbin = build_harness(self.harness, impl_dir, "asan", self.wraps) if self.harness else None
+            self.hbin = build_harness(self.harness, impl_dir, "asan", self.wraps, lib=self.lib) if self.harness else None
         except BuildError as e:
             self.violation("build", "build-failure", str(e)[:2000], {"error": str(e)[:4000]})
         # 4 correspondence + oracle
